@@ -18,6 +18,30 @@ abbrev Table := Nat → Nat → Rat
 /-- extended rationals: `none` = `+inf` -/
 abbrev ERat := Option Rat
 
+/-- `f` evaluated once on `0 … n-1` -/
+def tab {α} (n : Nat) (f : Nat → α) : Array α := Array.ofFn (n := n) (fun i => f i.val)
+
+/-- answer from the stored array where it has an entry, else from `f` itself -/
+def look {α} (a : Array α) (f : Nat → α) (i : Nat) : α := if h : i < a.size then a[i] else f i
+
+/-- `memo n f = f` (`memo_eq`); it only keeps the compiled driver from re-evaluating nested
+closures (the array is built when `memo n f` is formed, because `look` is partially applied). -/
+@[inline] def memo {α} (n : Nat) (f : Nat → α) : Nat → α := look (tab n f) f
+
+theorem look_eq {α} (a : Array α) (f : Nat → α) (h : ∀ i (h : i < a.size), a[i] = f i) :
+    look a f = f := by
+  funext i
+  unfold look
+  by_cases hi : i < a.size
+  · rw [dif_pos hi]; exact h i hi
+  · rw [dif_neg hi]
+
+theorem memo_eq {α} (n : Nat) (f : Nat → α) : memo n f = f := by
+  unfold memo
+  apply look_eq
+  intro i h
+  simp [tab]
+
 /-- `a < b` on floats that may be `inf` -/
 def ltE : ERat → ERat → Bool
   | some a, some b => decide (a < b)
@@ -91,17 +115,17 @@ def St.cold : St :=
   { dist := fun _ => none, assign := fun _ => -1, ctrInds := [], centers := [] }
 
 /-- util.py L199-203, the loop over `enumerate(cluster_centers)`; `i` is the running label -/
-def nearestGo (D : Table) : List Nat → Nat → (Nat → ERat) → (Nat → Int) →
+def nearestGo (D : Table) (n : Nat) : List Nat → Nat → (Nat → ERat) → (Nat → Int) →
     (Nat → ERat) × (Nat → Int)
   | [], _, d, a => (d, a)
   | c :: cs, i, d, a =>
-    nearestGo D cs (i+1)
-      (fun f => let o := d f; let x := some (D f c); if ltE x o then x else o)
-      (fun f => if ltE (some (D f c)) (d f) then (i : Int) else a f)
+    nearestGo D n cs (i+1)
+      (memo n fun f => let o := d f; let x := some (D f c); if ltE x o then x else o)
+      (memo n fun f => if ltE (some (D f c)) (d f) then (i : Int) else a f)
 
 /-- util.py `assign_to_nearest_center` (L186-205): labels start at 0, distances at `inf` -/
-def assignToNearest (D : Table) (cs : List Nat) : (Nat → ERat) × (Nat → Int) :=
-  nearestGo D cs 0 (fun _ => none) (fun _ => 0)
+def assignToNearest (D : Table) (n : Nat) (cs : List Nat) : (Nat → ERat) × (Nat → Int) :=
+  nearestGo D n cs 0 (fun _ => none) (fun _ => 0)
 
 /-- util.py `find_cluster_centers` (L233-242) for labels known to lie in `0 … m-1`
 (`np.unique` = the labels that occur, ascending): per occurring label the first frame with
@@ -113,22 +137,23 @@ def findClusterCenters (n m : Nat) (assign : Nat → Int) (dist : Nat → ERat) 
 def initState (D : Table) (n : Nat) : Option (List Nat) → St
   | none => St.cold
   | some cs =>
-    let da := assignToNearest D cs
+    let da := assignToNearest D n cs
     { dist := da.1, assign := da.2,
       ctrInds := findClusterCenters n (max cs.length 1) da.2 da.1,
       centers := cs }
 
 /-- kcenters.py L304-308 and L224: `inds = dist < distances`, write-back, the two appends -/
-def update (s : St) (cand : Nat → ERat) (c : Nat) : St :=
-  { dist := fun f => let o := s.dist f; let x := cand f; if ltE x o then x else o
-    assign := fun f => if ltE (cand f) (s.dist f) then (s.ctrInds.length : Int) else s.assign f
+def update (n : Nat) (s : St) (cand : Nat → ERat) (c : Nat) : St :=
+  { dist := memo n fun f => let o := s.dist f; let x := cand f; if ltE x o then x else o
+    assign := memo n fun f =>
+      if ltE (cand f) (s.dist f) then (s.ctrInds.length : Int) else s.assign f
     ctrInds := s.ctrInds ++ [c]
     centers := s.centers ++ [c] }
 
 /-- kcenters.py L282, L298: the plain iteration -/
 def iterPlain (D : Table) (n : Nat) (s : St) : St :=
   let c := argmaxE n s.dist
-  update s (fun f => some (D f c)) c
+  update n s (fun f => some (D f c)) c
 
 /-- `np.all(assignments >= 0)` -/
 def allAssigned (n : Nat) (a : Nat → Int) : Bool := (List.range n).all (fun f => decide (0 ≤ a f))
@@ -146,7 +171,7 @@ def triCand (D : Table) (s : St) (c : Nat) (f : Nat) : ERat :=
 def iterTri (D : Table) (n : Nat) (s : St) : Except Err St :=
   let c := argmaxE n s.dist
   if (List.range n).all (fun f => decide (s.assign f < (s.ctrInds.length : Int))) then
-    .ok (update s (triCand D s c) c)
+    .ok (update n s (triCand D s c) c)
   else .error .indexError       -- `cc_dists[assignments]` out of bounds
 
 /-- `_kcenters_iteration` -/
